@@ -49,6 +49,8 @@ func buildSearchWorld(c *ctx, w *world, n int, timeStyle string) *searchWorld {
 			return base.Add(time.Duration(c.rng.Intn(3)) * time.Second)
 		case "pre1970":
 			return time.Unix(-1000000+int64(c.rng.Intn(50))*1000, int64(c.rng.Intn(3))*500000000).UTC()
+		case "pre1970tied":
+			return time.Unix(-5000+int64(c.rng.Intn(2)), int64(c.rng.Intn(4))*250000000).UTC()
 		case "subsecond":
 			return base.Add(time.Duration(c.rng.Intn(4)) * 250 * time.Millisecond)
 		case "mixed":
@@ -125,15 +127,15 @@ func (sw *searchWorld) byRef(r blob.Ref) *spn {
 }
 
 func runC09(c *ctx) {
-	c.rep.Rule = "worlds of 4-22 permanodes whose claim times are massively tied, pre-1970, sub-second or mixed, some deleted / hidden / without claims; permanode constraints (camliType permanode, skipHidden, tag equals); both continuable sorts; every page size 1..n+1 followed through its continuation tokens to exhaustion (watchdog on the number of pages); every pivot (matching, non-matching, deleted) x several limits for 'around'; " +
+	c.rep.Rule = "worlds of 4-22 permanodes whose claim times are massively tied, pre-1970, sub-second, pre-1970 with tied sub-second fractions, or mixed, some deleted / hidden / without claims; permanode constraints (camliType permanode, skipHidden, tag equals); both continuable sorts; every page size 1..n+1 followed through its continuation tokens to exhaustion (watchdog on the number of pages); every pivot (matching, non-matching, deleted) x several limits for 'around'; " +
 		"non-trivial = distinct case with at least two pages (paging) or a pivot that matches (around)"
 	w, err := newWorld()
 	if err != nil {
 		panic(err)
 	}
 	ctxb := context.Background()
-	styles := []string{"tied", "pre1970", "subsecond", "mixed", "spread"}
-	for wi := 0; wi < c.n(10, 120); wi++ {
+	styles := []string{"tied", "pre1970", "subsecond", "mixed", "spread", "pre1970tied"}
+	for wi := 0; wi < c.n(12, 120); wi++ {
 		style := styles[wi%len(styles)]
 		sw := buildSearchWorld(c, w, 4+c.rng.Intn(19), style)
 		h := sw.iw.handler(w, 0)
